@@ -31,6 +31,10 @@ func (srv *Srv) version(req *SrvReq) {
 		}
 
 		for rr := r; rr != nil; rr = rr.next {
+			if rr == req {
+				/* the Tversion itself (sent with an ordinary tag) is still to be answered */
+				continue
+			}
 			rr.Lock()
 			rr.status |= reqFlush
 			rr.Unlock()
